@@ -347,13 +347,14 @@ def runtime_module(ok, log=lambda s: None):
     out = os.path.join(OBJ, "runtime-" + h + ".bc")
     if not os.path.exists(out):
         t0 = time.time()
-        # drop stale runtime modules (disk hygiene)
-        for fn in os.listdir(OBJ):
-            if fn.startswith("runtime-"):
-                try:
-                    os.unlink(os.path.join(OBJ, fn))
-                except OSError:
-                    pass
+        # drop stale runtime modules (disk hygiene): keep the three most recent ones
+        olds = sorted((fn for fn in os.listdir(OBJ) if fn.startswith("runtime-") and fn.endswith(".bc")),
+                      key=lambda fn: os.path.getmtime(os.path.join(OBJ, fn)))
+        for fn in olds[:-3]:
+            try:
+                os.unlink(os.path.join(OBJ, fn))
+            except OSError:
+                pass
         tmp = out + ".tmp%d" % os.getpid()
         link_bc([r["bc"] for r in ok], tmp)
         os.replace(tmp, out)
